@@ -8,11 +8,16 @@ z3 by PyVC and executed natively as the replay oracle.
 import datetime
 import math
 import numbers
+import re
 
 from pyvc.contract import spec, Ret, Raise, implies
 
 import stone.backends.python_rsrc.stone_validators as bv
 import stone.backends.python_rsrc.stone_base as bb
+
+# |i| >= F64_BIG  <=>  float(i) overflows (the midpoint between the largest
+# double and 2**1024 rounds to even, i.e. up)
+F64_BIG = 2 ** 1024 - 2 ** 970
 
 
 # ---------------------------------------------------------------- kinds
@@ -26,14 +31,92 @@ def is_real(v):
     return isinstance(v, numbers.Real)
 
 
+def is_plain_int(v):
+    return isinstance(v, int) and not isinstance(v, bool)
+
+
+def opt_int_ge(x, lo):
+    """x is None or a plain int >= lo."""
+    return x is None or (is_plain_int(x) and x >= lo)
+
+
 # ---------------------------------------------------------------- well-formed validators
 # What the validator constructors establish (C08: "parameter combinations at the
 # type's extremes"): bounds are of the right kind and inside the type's range.
 
 def wf_integer(t):
-    return (isinstance(t.minimum, int) and not isinstance(t.minimum, bool)
-            and isinstance(t.maximum, int) and not isinstance(t.maximum, bool)
+    return (is_plain_int(t.minimum) and is_plain_int(t.maximum)
             and t.default_minimum <= t.minimum and t.maximum <= t.default_maximum)
+
+
+def opt_float_bound(x):
+    """None or a float that is not NaN (stone literals cannot denote NaN)."""
+    return x is None or (isinstance(x, float) and not math.isnan(x))
+
+
+def wf_real(t):
+    return (opt_float_bound(t.minimum) and opt_float_bound(t.maximum)
+            and (t.default_minimum is None or (t.minimum is not None and t.default_minimum <= t.minimum))
+            and (t.default_maximum is None or (t.maximum is not None and t.maximum <= t.default_maximum)))
+
+
+def whole_string_pattern(pattern):
+    """Axiom RE: the compiled form that matches exactly the strings the
+    pattern matches as a whole."""
+    return re.compile(r"\A(?:" + pattern + r")\Z")
+
+
+def wf_string(t):
+    return (opt_int_ge(t.min_length, 0) and opt_int_ge(t.max_length, 1)
+            and (t.pattern is None or isinstance(t.pattern, str))
+            and ((not t.pattern and t.pattern_re is None)
+                 or (bool(t.pattern) and t.pattern_re == whole_string_pattern(t.pattern))))
+
+
+def wf_bytes(t):
+    return opt_int_ge(t.min_length, 0) and opt_int_ge(t.max_length, 1)
+
+
+def wf_timestamp(t):
+    return isinstance(t.format, str)
+
+
+def wf_list_params(t):
+    return opt_int_ge(t.min_items, 0) and opt_int_ge(t.max_items, 1)
+
+
+@spec(recursive=True, returns='bool')
+def wf(t):
+    """Well-formed validator tree."""
+    if isinstance(t, bv.Boolean):
+        return True
+    if isinstance(t, bv.Integer):
+        return type(t) is not bv.Integer and wf_integer(t)
+    if isinstance(t, bv.Real):
+        return type(t) is not bv.Real and wf_real(t)
+    if isinstance(t, bv.String):
+        return wf_string(t)
+    if isinstance(t, bv.Bytes):
+        return wf_bytes(t)
+    if isinstance(t, bv.Timestamp):
+        return wf_timestamp(t)
+    if isinstance(t, bv.Void):
+        return True
+    if isinstance(t, bv.Nullable):
+        return (isinstance(t.validator, (bv.Primitive, bv.Composite))
+                and not isinstance(t.validator, bv.Void) and wf(t.validator))
+    if isinstance(t, bv.List):
+        return wf_list_params(t) and isinstance(t.item_validator, bv.Validator) and wf(t.item_validator)
+    if isinstance(t, bv.Map):
+        return (isinstance(t.key_validator, bv.String) and wf(t.key_validator)
+                and isinstance(t.value_validator, bv.Validator) and wf(t.value_validator))
+    return False
+
+
+# ---------------------------------------------------------------- valid / norm (C08)
+
+def valid_boolean(v):
+    return isinstance(v, bool)
 
 
 def valid_int(t, v):
@@ -41,5 +124,101 @@ def valid_int(t, v):
     return is_integral(v) and t.minimum <= v and v <= t.maximum
 
 
-def valid_boolean(v):
-    return isinstance(v, bool)
+def float_convertible(v):
+    return isinstance(v, float) or (-F64_BIG < v and v < F64_BIG)
+
+
+def real_in_range(t, f):
+    return (not math.isnan(f) and not math.isinf(f)
+            and (t.minimum is None or t.minimum <= f)
+            and (t.maximum is None or f <= t.maximum))
+
+
+def valid_real(t, v):
+    """C08: finite float within range (ints are accepted and stored as floats)."""
+    return is_real(v) and float_convertible(v) and real_in_range(t, float(v))
+
+
+def valid_string(t, v):
+    """C08: string length and whole-string pattern."""
+    return (isinstance(v, str)
+            and (t.max_length is None or len(v) <= t.max_length)
+            and (t.min_length is None or len(v) >= t.min_length)
+            and (not t.pattern or whole_string_pattern(t.pattern).match(v) is not None))
+
+
+def valid_bytes(t, v):
+    return (isinstance(v, bytes)
+            and (t.max_length is None or len(v) <= t.max_length)
+            and (t.min_length is None or len(v) >= t.min_length))
+
+
+def valid_timestamp(v):
+    """naive or UTC datetime"""
+    return isinstance(v, datetime.datetime) and (
+        v.tzinfo is None or v.tzinfo.utcoffset(v).total_seconds() == 0)
+
+
+def valid_list(t, v):
+    return (isinstance(v, (list, tuple))
+            and (t.max_items is None or len(v) <= t.max_items)
+            and (t.min_items is None or len(v) >= t.min_items)
+            and all(valid(t.item_validator, x) for x in v))
+
+
+def valid_map(t, v):
+    return isinstance(v, dict) and all(
+        valid(t.key_validator, k) and valid(t.value_validator, x) for k, x in v.items())
+
+
+@spec(recursive=True, returns='bool')
+def valid(t, v):
+    """C08: the value satisfies the declared Stone type."""
+    if isinstance(t, bv.Boolean):
+        return valid_boolean(v)
+    if isinstance(t, bv.Integer):
+        return valid_int(t, v)
+    if isinstance(t, bv.Real):
+        return valid_real(t, v)
+    if isinstance(t, bv.String):
+        return valid_string(t, v)
+    if isinstance(t, bv.Bytes):
+        return valid_bytes(t, v)
+    if isinstance(t, bv.Timestamp):
+        return valid_timestamp(v)
+    if isinstance(t, bv.Void):
+        return v is None
+    if isinstance(t, bv.Nullable):
+        return v is None or valid(t.validator, v)
+    if isinstance(t, bv.List):
+        return valid_list(t, v)
+    if isinstance(t, bv.Map):
+        return valid_map(t, v)
+    return False
+
+
+@spec(recursive=True, returns='val')
+def norm(t, v):
+    """Documented normalisations: ints become floats in float positions,
+    tuples become lists; everything else is stored as given."""
+    if isinstance(t, bv.Real):
+        return float(v)
+    if isinstance(t, bv.Void):
+        return None
+    if isinstance(t, bv.Nullable):
+        if v is None:
+            return None
+        return norm(t.validator, v)
+    if isinstance(t, bv.List):
+        return [norm(t.item_validator, x) for x in v]
+    if isinstance(t, bv.Map):
+        return {norm(t.key_validator, k): norm(t.value_validator, x) for k, x in v.items()}
+    return v
+
+
+def validate_outcome(t, v):
+    """The contract of every ``validate``: accept exactly the valid values,
+    return the normalisation, refuse with ValidationError only."""
+    if valid(t, v):
+        return Ret(norm(t, v))
+    return Raise(bv.ValidationError)
